@@ -72,6 +72,13 @@ class C12(Prop):
             m = rng.choice((1, 2, 3, 5, n, rng.randint(1, n)))
             cases.append({"op": rng.choice(("fftconvolve", "correlate")), "n": n, "m": m,
                           "dkind": rng.choice(("int", "int", "const", "impulse")), "dseed": rng.randrange(1 << 30)})
+        # a long series against a short kernel (the regime of block-wise convolution): every output sample, the last
+        # `m - 1` included, for lengths on both sides of any block boundary
+        for _ in range(14 if tier == "quick" else 100):
+            m = rng.choice((2, 3, 5, 10, 12))
+            n = rng.choice((568, 639, 1000, 1278, rng.randint(512, 1500), rng.randint(512, 1500)))
+            cases.append({"op": rng.choice(("fftconvolve", "correlate")), "n": n, "m": m,
+                          "dkind": rng.choice(("int", "const")), "dseed": rng.randrange(1 << 30)})
         for _ in range(12 if tier == "quick" else 80):
             n = rng.choice((8, 31, 64, 100, 200))
             cases.append({"op": "correlate", "n": n, "m": n, "lag": rng.choice((1, 3, n // 2, n - 1)),
@@ -187,8 +194,8 @@ class C12(Prop):
         op = case["op"]
         if op == "rfft_ifft":
             return [f"C12 lens {obs['N']} {obs['N']}"]
-        if op in ("fftconvolve", "correlate") and case["dkind"] in ("int", "const", "impulse"):
-            x, y = pair(case)
+        if op in ("fftconvolve", "correlate") and case["dkind"] in ("int", "const", "impulse") and case["n"] <= 400:
+            x, y = pair(case)      # (longer series: definition oracle only, the exact-model driver is slow on them)
             return [f"C12 {'conv' if op == 'fftconvolve' else 'corr'} {obs['N']} {len(x)} "
                     f"{' '.join(str(int(v)) for v in x)} {' '.join(str(int(v)) for v in y)}"]
         return []
